@@ -103,7 +103,194 @@ type pathState struct {
 	nested     bool
 	localPC    []*smt.Term
 	pcHash     uint64
+	aux        *auxDefs
 	memo       map[string]value // summaries of heap-independent pure calls, per path
+}
+
+// auxDefs: auxiliary solver variables introduced by the engine (quotient/remainder of a
+// division by a constant) with their defining constraints.  They are functions of the
+// inputs, not inputs; the definitions are (re-)asserted whenever solver frames are popped.
+type auxDefs struct {
+	vars []*smt.Term
+	defs []*smt.Term
+	seen map[string]bool
+}
+
+// vars returns every solver variable whose model value is needed.
+func (p *pathState) vars() []*smt.Term {
+	if p.aux == nil || len(p.aux.vars) == 0 {
+		return p.nondets
+	}
+	return append(append([]*smt.Term(nil), p.nondets...), p.aux.vars...)
+}
+
+// reassertDefs puts the auxiliary definitions back after solver frames were popped.
+func (i *interpreter) reassertDefs() {
+	if i.path == nil || i.path.aux == nil {
+		return
+	}
+	for _, d := range i.path.aux.defs {
+		i.solver.Assert(d)
+	}
+}
+
+// divmodConst returns terms (q, r) with x = q*c + r for a non-zero constant c, using fresh
+// auxiliary variables instead of a division circuit (multiplication by a constant is cheap
+// for the solvers, 64-bit division is not).
+func (i *interpreter) divmodConst(x *smt.Term, cval uint64, signed bool) (*smt.Term, *smt.Term) {
+	c := i.ctx
+	w := x.W
+	p := i.path
+	if p.aux == nil {
+		p.aux = &auxDefs{seen: map[string]bool{}}
+	}
+	key := fmt.Sprintf("%d/%d/%v", x.ID, cval, signed)
+	q := c.Var("aux.q:"+key, w)
+	r := c.Var("aux.r:"+key, w)
+	if p.aux.seen[key] {
+		return q, r
+	}
+	p.aux.seen[key] = true
+	k := c.BV(cval, w)
+	def := c.Eq(x, c.Bin(smt.OBvAdd, c.Bin(smt.OBvMul, q, k), r))
+	if signed {
+		sc := k.SignedVal()
+		absC := sc
+		if absC < 0 {
+			absC = -absC
+		}
+		maxInt := int64(1)<<uint(w-1) - 1
+		bound := c.BV(uint64(maxInt/absC), w)
+		zero := c.BV(0, w)
+		ac := c.BV(uint64(absC), w)
+		nonneg := c.Bin(smt.OBvSle, zero, x)
+		// remainder has the sign of the dividend and |r| < |c|
+		rpos := c.And(c.Bin(smt.OBvSle, zero, r), c.Bin(smt.OBvSlt, r, ac))
+		rneg := c.And(c.Bin(smt.OBvSlt, c.BvNeg(ac), r), c.Bin(smt.OBvSle, r, zero))
+		def = c.And(def, c.Ite(nonneg, rpos, rneg))
+		def = c.And(def, c.And(c.Bin(smt.OBvSle, c.BvNeg(bound), q), c.Bin(smt.OBvSle, q, bound)))
+		// q has the sign of x/c (or is zero): excludes the spurious solution q-1, r+c for negative dividends
+		if sc > 0 {
+			def = c.And(def, c.Ite(nonneg, c.Bin(smt.OBvSle, zero, q), c.Bin(smt.OBvSle, q, zero)))
+		} else {
+			def = c.And(def, c.Ite(nonneg, c.Bin(smt.OBvSle, q, zero), c.Bin(smt.OBvSle, zero, q)))
+		}
+	} else {
+		bound := c.BV(mask64(w)/cval, w)
+		def = c.And(def, c.Bin(smt.OBvUlt, r, k))
+		def = c.And(def, c.Bin(smt.OBvUle, q, bound))
+	}
+	p.aux.vars = append(p.aux.vars, q, r)
+	p.aux.defs = append(p.aux.defs, def)
+	if i.auxRegistry == nil {
+		i.auxRegistry = map[string]auxEntry{}
+	}
+	i.auxRegistry[q.Name] = auxEntry{key: key, q: q, r: r, def: def}
+	i.auxRegistry[r.Name] = auxEntry{key: key, q: q, r: r, def: def}
+	i.solver.Assert(def)
+	// the cached model does not know q and r
+	if p.modelValid && p.model != nil {
+		xv := i.evalModel(x)
+		var qv, rv uint64
+		if signed {
+			sx := sext(xv, w)
+			sc := k.SignedVal()
+			qv, rv = uint64(sx/sc), uint64(sx%sc)
+		} else {
+			qv, rv = xv/cval, xv%cval
+		}
+		m := make(map[string]uint64, len(p.model)+2)
+		for kk, vv := range p.model {
+			m[kk] = vv
+		}
+		m[q.Name] = qv & mask64(w)
+		m[r.Name] = rv & mask64(w)
+		p.model = m
+	}
+	return q, r
+}
+
+type auxEntry struct {
+	key  string
+	q, r *smt.Term
+	def  *smt.Term
+}
+
+// ensureAuxFor makes sure the definitions of all auxiliary variables occurring in v are part of
+// the current path (needed when a summarised value computed on another path is reused).
+func (i *interpreter) ensureAuxFor(v value) {
+	if len(i.auxRegistry) == 0 {
+		return
+	}
+	var terms []*smt.Term
+	var walk func(v value, d int)
+	walk = func(v value, d int) {
+		if d > 4 {
+			return
+		}
+		switch x := v.(type) {
+		case *smt.Term:
+			terms = append(terms, x)
+		case structure:
+			for _, f := range x {
+				walk(f, d+1)
+			}
+		case array:
+			for _, f := range x {
+				walk(f, d+1)
+			}
+		case tuple:
+			for _, f := range x {
+				walk(f, d+1)
+			}
+		case sstr:
+			for _, f := range x {
+				walk(f, d+1)
+			}
+		}
+	}
+	walk(v, 0)
+	seen := map[int]bool{}
+	for len(terms) > 0 {
+		t := terms[len(terms)-1]
+		terms = terms[:len(terms)-1]
+		var vars []*smt.Term
+		smt.CollectVars(t, seen, &vars)
+		for _, vr := range vars {
+			e, ok := i.auxRegistry[vr.Name]
+			if !ok {
+				continue
+			}
+			p := i.path
+			if p.aux == nil {
+				p.aux = &auxDefs{seen: map[string]bool{}}
+			}
+			if p.aux.seen[e.key] {
+				continue
+			}
+			p.aux.seen[e.key] = true
+			p.aux.vars = append(p.aux.vars, e.q, e.r)
+			p.aux.defs = append(p.aux.defs, e.def)
+			i.solver.Assert(e.def)
+			p.modelValid = false
+			terms = append(terms, e.def)
+		}
+	}
+}
+
+func mask64(w int) uint64 {
+	if w >= 64 {
+		return ^uint64(0)
+	}
+	return uint64(1)<<uint(w) - 1
+}
+
+func sext(v uint64, w int) int64 {
+	if w >= 64 {
+		return int64(v)
+	}
+	sh := uint(64 - w)
+	return int64(v<<sh) >> sh
 }
 
 // endPath is the panic payload used to terminate the current path.
@@ -117,7 +304,7 @@ func (i *interpreter) ensureModel() {
 	if p.modelValid {
 		return
 	}
-	res, m := i.solver.Check(nil, true, p.nondets)
+	res, m := i.solver.Check(nil, true, p.vars())
 	switch res {
 	case smt.Sat:
 		p.model = m
@@ -214,7 +401,7 @@ func (i *interpreter) decide(cond *smt.Term) bool {
 	if mv {
 		other = i.ctx.Not(cond)
 	}
-	res, m2 := i.solver.Check(other, true, p.nondets)
+	res, m2 := i.solver.Check(other, true, p.vars())
 	otherFeasible := res != smt.Unsat
 	if res == smt.Unknown {
 		p.unknownBr++
@@ -287,7 +474,7 @@ func (i *interpreter) concretize(x *smt.Term, t types.Type) value {
 			i.solver.Pop()
 			panic(endPath{PathUnsupported, fmt.Sprintf("symbolic value %s has more than %d feasible values where a concrete one is needed (%s)", x, i.opts.MaxConcretize, i.where())})
 		}
-		res, m := i.solver.Check(nil, true, append(p.nondets, termVars(x)...))
+		res, m := i.solver.Check(nil, true, append(p.vars(), termVars(x)...))
 		if res == smt.Unsat {
 			break
 		}
@@ -301,6 +488,7 @@ func (i *interpreter) concretize(x *smt.Term, t types.Type) value {
 		i.solver.Assert(i.ctx.Ne(x, i.ctx.BV(v, x.W)))
 	}
 	i.solver.Pop()
+	i.reassertDefs()
 	for k := 1; k < len(vals); k++ {
 		alt := append(append([]Decision(nil), p.decisions...), Decision{Kind: 'v', V: vals[k]})
 		p.children = append(p.children, WorkItem{Prefix: alt, Model: models[k]})
@@ -341,7 +529,7 @@ func (i *interpreter) assume(v value) {
 			i.assertPC(c)
 			return
 		}
-		res, m := i.solver.Check(c, true, p.nondets)
+		res, m := i.solver.Check(c, true, p.vars())
 		switch res {
 		case smt.Sat:
 			i.assertPC(c)
@@ -378,7 +566,7 @@ func (i *interpreter) check(v value, label string) {
 		return
 	case *smt.Term:
 		p.asserts++
-		res, m := i.solver.Check(i.ctx.Not(c), true, p.nondets)
+		res, m := i.solver.Check(i.ctx.Not(c), true, p.vars())
 		switch res {
 		case smt.Unsat:
 			// holds on this path for every value; nothing to add
